@@ -611,6 +611,12 @@ type HEIFOpts struct {
 	// InfeVersions != 0: the further entries are written in item-info versions 3, 1 and 0 as well
 	// (chosen per entry from this value); 0: all of them in version 2
 	InfeVersions uint64
+	// ItemFirst: the Exif item is the first thing in mdat (the coded image follows it); Mdat64: mdat
+	// carries a 64-bit size; AVIFBrand: the file type box says avif (major brand, or mif1 with avif)
+	ItemFirst, Mdat64, AVIFBrand bool
+	// IinfFirst: the item-information box stands in front of the item-location box (the order in
+	// which the library's box reader can resolve the Exif item; files are written in either order)
+	IinfFirst bool
 	// Iref: meta also holds an item-reference box (cdsc / thmb references, as HEIF files have)
 	Iref bool
 	// IrefBad (with Iref): the iref box declares more than meta has left and its first child more
@@ -631,6 +637,13 @@ func DrawHEIFOpts(l *core.Lane, tiff []byte, surround bool, ho HEIFOpts) *HEIF {
 		ftyp = Box("ftyp", []byte("heix"), be32(0), []byte("mif1heix"))
 	default:
 		ftyp = Box("ftyp", []byte("mif1"), be32(0), []byte("mif1heic"))
+	}
+	if ho.AVIFBrand {
+		if l.Bool() {
+			ftyp = Box("ftyp", []byte("avif"), be32(0), []byte("avifmif1"))
+		} else {
+			ftyp = Box("ftyp", []byte("mif1"), be32(0), []byte("mif1avif"))
+		}
 	}
 	if ho.Brands > 0 {
 		extra := []byte{}
@@ -717,6 +730,9 @@ func DrawHEIFOpts(l *core.Lane, tiff []byte, surround bool, ho HEIFOpts) *HEIF {
 			binary.BigEndian.PutUint32(iloc, uint32(len(iloc)))
 			return fullBox("meta", 0, 0, hdlr, pitm, iref, iinf, iprp, extra, iloc)
 		}
+		if ho.IinfFirst {
+			return fullBox("meta", 0, 0, hdlr, pitm, iref, iinf, iloc, iprp, extra)
+		}
 		return fullBox("meta", 0, 0, hdlr, pitm, iref, iloc, iinf, iprp, extra)
 	}
 	metaLen := len(mkMeta(mkIloc(0, 0, 0, 0)))
@@ -725,8 +741,16 @@ func DrawHEIFOpts(l *core.Lane, tiff []byte, surround bool, ho HEIFOpts) *HEIF {
 		pre = Box("free", ScreenTIFF(l.Sub().Bytes(l.Intn(100))))
 	}
 	mdatStart := len(ftyp) + metaLen + len(pre)
-	imgOff := mdatStart + 8
+	mdatHdr := 8
+	if ho.Mdat64 {
+		mdatHdr = 16
+	}
+	imgOff := mdatStart + mdatHdr
 	exifOff := imgOff + len(imgData)
+	if ho.ItemFirst {
+		exifOff = mdatStart + mdatHdr
+		imgOff = exifOff + len(item)
+	}
 	meta := mkMeta(mkIloc(uint32(imgOff), uint32(len(imgData)), uint32(exifOff), uint32(len(item))))
 	out := append([]byte(nil), ftyp...)
 	h.Top = append(h.Top, Span{"ftyp", 0, len(out)})
@@ -742,7 +766,15 @@ func DrawHEIFOpts(l *core.Lane, tiff []byte, surround bool, ho HEIFOpts) *HEIF {
 	// the header search needs a 32-byte window at the signature: other item data follows the
 	// Exif item inside mdat (as in real files, where the coded image usually does)
 	trail := ScreenTIFF(l.Sub().Bytes(32 + l.Intn(64)))
-	out = append(out, Box("mdat", imgData, item, trail)...)
+	first, second := imgData, item
+	if ho.ItemFirst {
+		first, second = item, imgData
+	}
+	if ho.Mdat64 {
+		out = append(out, Box64("mdat", first, second, trail)...)
+	} else {
+		out = append(out, Box("mdat", first, second, trail)...)
+	}
 	h.Top = append(h.Top, Span{"mdat", s, len(out)})
 	h.TIFFOff = exifOff + 10
 	if surround && l.Bool() {
